@@ -176,7 +176,7 @@ func Main(a int) int {
 	return a
 }
 `, "Main", []Arg{{T: "int", I: 0}}, "int", "i:11"},
-	{kConcatCmp, "the result of a string concatenation is a Buffer: comparing it (==, switch) with a string is false, using it as a map key faults",
+	{kConcatCmp, "a string produced by concatenation (+, +=) is a Buffer in the VM: ==, != and switch compare Buffers by reference, so comparing such a value (directly or after storing it in a variable) gives wrong answers; as a map key it faults",
 		`package foo
 
 func Main(a int) bool {
